@@ -2238,8 +2238,11 @@ def random_history(rng, max_len, wild=0.08):
                 v = {"l": pick_items(anchor)}
             else:
                 v = {"s": "x"}
-            if v is not None and "l" in v and o.index is None and o.parent is not None:
-                continue  # "replace the parent" recursion: not modelled
+            if v is not None and "l" in v and o.parent is not None and \
+                    isinstance(o.parent.args.get(o.arg_key), Expr):
+                # `replace(list)` where the parent's slot holds a single node (also reachable through a stale list index):
+                # the code then replaces the PARENT recursively — the one path the model does not mirror
+                continue
             res = emit({"op": "replace", "n": tgt, "v": v})
         elif r < 0.74:
             res = emit({"op": "pop", "n": tgt})
